@@ -44,6 +44,25 @@ def configs(tier, rng):
     return cs
 
 
+def cause_of(o, v):
+    """Names the recorded finding a failing run belongs to, from the pipeline, the statement of the template in which the
+    layout's gap lies (Layout!StmtTag) and what moved. Anything else is `other` (a violation)."""
+    rules, stag = o["rules"], o.get("stag", "")
+    moved = set(bytes(x).decode("latin-1") for x in v.get("moved", []))
+    has = lambda r: ("'%s'" % r) in rules
+    if has("convert_local_function_to_assign") and v["lines_ok"] and moved and moved <= {"g", "h", "hh"}:
+        return "local-function-name-moved"
+    if has("remove_nil_declaration") and stag in ("local na ,", "local da ,"):
+        return "nil-declaration-reordered"
+    if has("remove_unused_variable") and stag == "local ua ,":
+        return "unused-variable-reordered"
+    if o.get("k1") == 8 and ((has("remove_unused_variable") and stag in ("local dead =", "local dead2 =", "local unused =")) or (has("remove_empty_do") and stag in ("local dead2 =", "do end"))):
+        return "comments-of-removed-statement"
+    if has("remove_unused_if_branch") and stag in ("if false then", "local w ="):
+        return "first-branch-removed"
+    return "other"
+
+
 def run(tier):
     rep = Report(PID, tier, "exploration")
     rng = random.Random(vlib.seed())
@@ -72,7 +91,8 @@ def run(tier):
             ls = layouts if tier == "thorough" else rng.sample(layouts, 600)
         for li, l in enumerate(ls):
             cases.append({"id": "k%d_%d" % (ci, li), "src": l["src"], "kind": "markers", "rules": rules_text(rules), "shift": 0,
-                          "cfg": label, "tpl": l["tpl"], "g1": l["g1"], "k1": l["k1"], "g2": l["g2"], "k2": l["k2"]})
+                          "names": 0 if "rename_variables" in rules else 1,
+                          "cfg": label, "tpl": l["tpl"], "g1": l["g1"], "k1": l["k1"], "g2": l["g2"], "k2": l["k2"], "stag": l.get("stag", "")})
     # append_text_comment at the start: every marker shifts by the number of lines of the comment
     for li, l in enumerate(rng.sample(layouts, 100 if tier == "quick" else 1000)):
         for text, shift in (("one line", 1), ("two\nlines", 4)):
@@ -80,6 +100,8 @@ def run(tier):
                           "rules": "['remove_spaces', { rule: 'append_text_comment', text: %s }]" % json.dumps(text),
                           "tpl": l["tpl"], "g1": l["g1"], "k1": l["k1"], "g2": l["g2"], "k2": l["k2"]})
     obs, verdicts, res = run_and_judge(rep.wd, "markers", cases, workers=12)
+    with open(os.path.join(rep.wd, "verdicts.json"), "w") as f:       # kept for triage (bin/c04triage)
+        json.dump(verdicts, f)
     skipped = 0
     nmarkers = 0
     for cid, v in verdicts.items():
@@ -92,6 +114,7 @@ def run(tier):
         nmarkers += v["ncode"]
         if not v["ok"]:
             sig = {"kind": "markers", "cfg": o["cfg"], "rules": o["rules"], "lex_out": v["lex_out"], "marker_line": v["ncomments"], "found_on_line_offset": v["shift"],
+                   "markers_ok": v["lines_ok"], "cause": cause_of(o, v), "stag": o.get("stag", ""), "moved_names": [bytes(x).decode("latin-1") for x in v.get("moved", [])][:6],
                    "tpl": o["tpl"], "g1": o["g1"], "k1": o["k1"], "g2": o["g2"], "k2": o["k2"]}
             payload = {k: o[k] for k in o if k not in ("srcb", "outb")}
             payload["src"] = text_of(o["srcb"])
@@ -121,7 +144,7 @@ def replay(path, tier):
     rep = Report(PID, tier, "exploration")
     with open(path) as f:
         c = json.load(f)["case"]
-    case = {"id": "replay", "src": c["src"], "kind": "markers", "rules": c["rules"], "shift": c.get("shift", 0), "cfg": c.get("cfg", ""),
+    case = {"id": "replay", "src": c["src"], "kind": "markers", "rules": c["rules"], "shift": c.get("shift", 0), "cfg": c.get("cfg", ""), "names": c.get("names", 0),
             "tpl": 0, "g1": 0, "k1": 0, "g2": 0, "k2": 0}
     obs, verdicts, res = run_and_judge(rep.wd, "replay", [case], workers=1)
     for cid, v in verdicts.items():
